@@ -69,6 +69,9 @@ pub fn cfg_event(sc: &Scenario, t: u64) -> Value {
         "npaths":sc.topo.paths.len(),"eps":sim::ZERO_TIMEOUT_COST_US + 1,"seed":sc.seed.to_string(),
         "fatal_fault": sc.faults.iter().any(|f| f.kind == "other" || f.kind == "perm"),
         "storm": sc.faults.iter().any(|f| f.from_send > 0),
+        "synthetic": false,
+        "nat_at": sc.topo.paths.first().map_or_else(Vec::new, |p| p.hops.iter().enumerate().filter(|(_, h)| h.nat > 0).map(|(i, _)| i + 1).collect::<Vec<_>>()),
+        "nat_cell": sc.fam == 4 && sc.proto == "udp" && sc.strat == "dublin",
         "dublin6": sc.strat == "dublin" && sc.fam == 6})
 }
 
